@@ -10,6 +10,7 @@ Order token (space free), 22 comma separated fields:
 
 Ops → output
 * `digest O`                → `ok:<hex sha256>` | `err:<kind>`
+* `parse version lease R sel`  → `ok O` | `err:<kind>`   (R = `traderKey,rate,amt,fee,nonce,minUnits,chanType,auctionType,public,allowed,notAllowed`, id lists `len:valid/…` or `-`)
 * `prepare O k`             → `ok:<k>.<hex digest>`   (signer key and message of `PrepareOrder`)
 * `submit O sig msKey node` → `ok <transmitted fields> <digest re-derived from them>` | `err:<kind>`
 -/
@@ -64,12 +65,49 @@ def sideFields : List (WField × String) :=
    (.isSidecarChannel, "IsSidecarChannel"), (.unannounced, "UnannouncedChannel"),
    (.zeroConf, "ZeroConfChannel")]
 
+def fOrder (o : Order) : String :=
+  joinWith "," [(if o.isBid then "b" else "a"), hex o.nonce, toString o.version, toString o.state,
+    toString o.fixedRate, toString o.amt, toString o.units, toString o.unitsUnfulfilled,
+    toString o.maxBatchFeeRate, hex o.acctKey, toString o.leaseDuration, toString o.minUnitsMatch,
+    toString o.channelType, toString o.auctionType, fBool o.isPublic, toString o.minNodeTier,
+    toString o.selfChanBalance, fBool o.sidecar, fBool o.unannounced, fBool o.zeroConf,
+    toString o.announcement, toString o.confirmation]
+
+def pIds (s : String) : Option (List (Nat × Bool)) :=
+  if s == "-" then some [] else
+  (s.splitOn "/").mapM fun e =>
+    match e.splitOn ":" with
+    | [l, v] => do let l ← l.toNat?; let v ← pBool v; pure (l, v)
+    | _ => none
+
+def pRpc (s : String) : Option RpcOrder :=
+  match s.splitOn "," with
+  | [tk, rate, amt, fee, nonce, mu, ct, at_, pub, al, nal] => do
+    let tk ← unhex tk; let rate ← rate.toNat?; let amt ← amt.toNat?; let fee ← fee.toNat?
+    let nonce ← unhex nonce; let mu ← mu.toNat?; let ct ← ct.toNat?; let at_ ← at_.toNat?
+    let pub ← pBool pub; let al ← pIds al; let nal ← pIds nal
+    pure { traderKey := tk, rateFixed := rate, amt := amt, maxBatchFeeRate := fee, orderNonce := nonce,
+           minUnitsMatch := mu, channelType := ct, auctionType := at_, isPublic := pub, allowed := al,
+           notAllowed := nal }
+  | _ => none
+
+def parseErrName : ParseErr → String
+  | .randomNonce => "random-nonce" | .minUnitsZero => "min-units-zero" | .minUnitsExceed => "min-units-exceed"
+  | .channelType => "channel-type" | .bothLists => "both-lists" | .allowedId => "allowed-id"
+  | .notAllowedId => "not-allowed-id"
+
 abbrev DrvSt := Unit
 def drvInit : DrvSt := ()
 
 def run (args : List String) : Option String :=
   match args with
   | ["digest", o] => do let o ← pOrder o; pure (fDigest (digest sha o))
+  | ["parse", v, l, d, sel] => do
+    let v ← v.toNat?; let l ← l.toNat?; let d ← pRpc d
+    let sel ← if sel == "-" then some none else sel.toNat?.map some
+    pure (match parseRPCOrder v l d sel with
+      | .ok o => "ok " ++ fOrder o
+      | .error e => "err:" ++ parseErrName e)
   | ["prepare", o, k] => do
     let o ← pOrder o; let k ← k.toNat?
     pure (match prepareOrderSig sha o k with
